@@ -52,8 +52,28 @@ def one_case(ctx, kind, inp, inp2, user_seed, check_model=True):
         write_tree(out, t1)
         names = None
         old = None
-        with presv.Capture() as cap:
-            ret = presv.run_kind(kind, out, inp2)
+        fault_k = None
+        if user_seed % 10 in (3, 4) and not inp.get("no_fault"):
+            # an obstacle while the new files are written (disk full, read-only directory, ...): either the generation raises -- then
+            # nothing is claimed about the directory here (C05 speaks about it) -- or it returns normally, and then the directory is
+            # what the property says
+            fault_k = rng.randrange(0, 5 * max(1, len(t0)))
+        if fault_k is not None:
+            from .. import faults
+            un = faults.install({}, {"op": fault_k, "mode": "exn", "scope": "createoutput"})
+            try:
+                with presv.Capture() as cap:
+                    ret = presv.run_kind(kind, out, inp2)
+            except OSError:
+                ctx.count("fault_raised")
+                return "trivial"
+            finally:
+                un()
+            ctx.count("fault_survived_or_not_reached")
+            check_model = False
+        else:
+            with presv.Capture() as cap:
+                ret = presv.run_kind(kind, out, inp2)
         now = read_tree(out)
         if check_model and ctx.km:
             old = presv.old_spec(out, [])  # placeholder, real old taken below
